@@ -185,9 +185,12 @@ func ValidateCounterpartyID(id string, protocol ProtocolID) error {
 // isInteger returns true if the string can be converted to
 // an integer, false otherwise.
 func isInteger(s string) bool {
-	_, err := strconv.Atoi(s)
+	// CCTP and Hyperlane domains are 32 bits unsigned integers. Forwardings are
+	// matched and recorded under their canonical decimal form, so this is the
+	// only accepted spelling: no sign, no leading zeros, no out of range values.
+	v, err := strconv.ParseUint(s, 10, 32)
 
-	return err == nil
+	return err == nil && strconv.FormatUint(v, 10) == s
 }
 
 // ID generates an internal identifier for a tuple (bridge protocol, chain).
